@@ -74,11 +74,14 @@ fn credential(cx: &mut Cx, c: u64, suite: Suite, issuer: NodeId, holder: NodeId)
         for _ in 0..nf {
             if stream.is_empty() { break; }
             let p = cx.ch.choose("fault_pos", stream.len() as u64) as usize;
-            match cx.ch.choose("fault_kind", 5) {
+            match cx.ch.choose("fault_kind", 6) {
                 0 => { if p + 1 < stream.len() { stream.swap(p, p + 1); cx.count("fault.frame_reorder"); } }
                 1 => { let d = stream[p].clone(); stream.insert(p, Req { tag: format!("{}-dup", d.tag), ..d }); cx.count("fault.frame_dup"); }
                 2 => { let cs = int_corruptions(stream[p].index, l); stream[p].index = cs[cx.ch.choose("int", cs.len() as u64) as usize]; stream[p].tag.push_str("-idx"); cx.count("fault.int_corrupt"); }
                 3 => { stream[p].old.push(0x55); stream[p].tag.push_str("-old"); cx.count("fault.elem_alter_old"); }
+                // a corrupted position on a request that changes nothing (new value == old value): a
+                // shortcut for "nothing to do" taken before the range check lets it through
+                5 => { let cs = int_corruptions(stream[p].index, l); stream[p].index = cs[cx.ch.choose("int", cs.len() as u64) as usize]; stream[p].new = stream[p].old.clone(); stream[p].tag.push_str("-idx-noop"); cx.count("fault.int_corrupt"); cx.count("probe.corrupted_position_on_a_request_that_changes_nothing"); }
                 _ => { stream.remove(p); cx.count("fault.frame_drop"); }
             }
         }
